@@ -37,5 +37,8 @@ func FreezeTimers()                        {}
 func SetClockNs(ns int64)                  {}
 func SleptNs() int64                       { return 0 }
 func StepDeadline(n int, label string)     {}
+func Go(f func())                          {}
+func Join()                                {}
+func Yield()                               {}
 func TimeOf(ns int64) time.Time            { return time.Time{} }
 func ReplayMain(fns map[string]func())     {}
